@@ -412,6 +412,31 @@ def precedence_check(ctx, hist):
     hist["precedence_shapes"] = shapes
 
 
+def parse_moments(out):
+    """results of the Evals of oracle.moments_file: list (per Eval) of rows (per n) of Fractions.  Coq prints a
+    negative numerator as ((-29)%Z, 400%positive)."""
+    import re
+    res = []
+    for m in re.finditer(r"=\s*(\[.*?\])\s*:\s*list \(list \(Z \* positive\)\)", out, re.S):
+        txt = m.group(1).replace("%Z", "").replace("%positive", "")
+        txt = re.sub(r"\(\s*(-\d+)\s*\)", r"\1", txt)
+        rows, depth, cur = [], 0, None
+        for tok in re.finditer(r"\[|\]|\(\s*(-?\d+)\s*,\s*(\d+)\s*\)", txt):
+            t = tok.group(0)
+            if t == "[":
+                depth += 1
+                if depth == 2:
+                    cur = []
+            elif t == "]":
+                if depth == 2:
+                    rows.append(cur)
+                depth -= 1
+            else:
+                cur.append(Fraction(int(tok.group(1)), int(tok.group(2))))
+        res.append(rows)
+    return res
+
+
 # ---- full analysis on several spellings + oracle -----------------------------------------------------
 def analysis_check(ctx, hist):
     rng = ctx.rng
@@ -431,7 +456,18 @@ def analysis_check(ctx, hist):
             tasks.append({"kind": "c19_analyze", "text": text, "goals": gtxt, "nmax": nmax, "timeout": 150})
             meta.append((p, name, text))
     results = lib.run_tasks(tasks, timeout=150)
-    oc = oracle.exact_moments(ctx, [({k: v for k, v in p.items() if k != "shape"}, goals, n_or) for p in progs], per_file=2, timeout=300)
+    ofiles = [(f"c19_oracle_{j}", oracle.moments_file({k: v for k, v in p.items() if k != "shape"}, goals, n_or))
+              for j, p in enumerate(progs)]
+    oouts = lib.coq_run_many(ctx, ofiles, timeout=100)
+    oc = []
+    for j, p in enumerate(progs):
+        ok_, o_ = oouts[f"c19_oracle_{j}"]
+        rs = parse_moments(o_) if ok_ else []
+        if len(rs) == 2 and len(rs[0]) == n_or + 1 and all(len(r) == len(goals) for r in rs[0]) and rs[0][:len(rs[1])] == rs[1]:
+            oc.append(rs[0])
+        else:
+            oc.append(None)
+            hist.setdefault("oracle_failures", []).append(o_[-300:])
     stat = {"compared": 0, "refused": 0, "oracle_compared": 0, "oracle_missing": 0}
     for i, p in enumerate(progs):
         ra, rb = results[2 * i], results[2 * i + 1]
